@@ -1,3 +1,5 @@
+//go:build go1.25
+
 package props
 
 // chanlin — linearizability of bigbuff.Channel under concurrent Get/Commit/Rollback/Buffer/Close (C13) and of
